@@ -126,11 +126,11 @@ func c11Gen(st vState) []vOp {
 	}{{"A", st.A}, {"B", st.B}} {
 		a := sn.o
 		if !a.Installed {
-			ops = append(ops, vOp{K: "install", S: sn.S})
+			ops = append(ops, vOp{K: "install", S: sn.S}, vOp{K: "sideload", S: sn.S})
 			continue
 		}
 		ci := vIndexOf(a.Seq, a.Cur)
-		ops = append(ops, vOp{K: "refresh-new", S: sn.S})
+		ops = append(ops, vOp{K: "refresh-new", S: sn.S}, vOp{K: "sideload", S: sn.S})
 		for p := range a.Seq {
 			if p != ci {
 				ops = append(ops, vOp{K: "refresh-kept", S: sn.S, P: p}, vOp{K: "revert-to", S: sn.S, P: p})
